@@ -30,10 +30,15 @@ func main() {
 		native := fs.Int("native", 8, "number of path samples to validate natively")
 		timeout := fs.Int("timeout", 0, "seconds")
 		bounds := fs.String("bounds", "", "name=val,name=val")
+		maxdec := fs.Int("maxdec", 0, "max decisions per path")
+		ccase := fs.String("case", "", "run one concrete case: name=val,... (choices as name=val too)")
 		fs.Parse(os.Args[2:])
-		h := &driver.Harness{Pkg: *pkg, Fn: *fn, Name: *fn, Bounds: driver.ParseBounds(*bounds)}
+		h := &driver.Harness{Pkg: *pkg, Fn: *fn, Name: *fn, Bounds: driver.ParseBounds(*bounds), MaxDecisions: *maxdec}
 		opt := &driver.Options{Repo: *repo, HarnessDir: *hdir, Workers: *workers, TraceCalls: *trace, TraceInstr: *tracei,
 			Solver: *solver, MaxPaths: *maxPaths, NativeSamples: *native, TimeoutS: *timeout, Verbose: true}
+		if *ccase != "" {
+			os.Exit(driver.RunConcrete(h, opt, *ccase))
+		}
 		res, err := driver.RunHarness(h, opt)
 		if err != nil {
 			fmt.Fprintln(os.Stderr, "error:", err)
